@@ -25,6 +25,9 @@ def check(run):
     for _ in range(n):
         html, options = advgen.document(rng)
         docs.append({'html': html, 'options': options})
+    for _ in range(n // 3):     # real HTML elements and attributes (tables with spans, images, forms, lists)
+        html, options = advgen.html_document(rng)
+        docs.append({'html': html, 'options': options})
     outs = common.run_impl('impl_c02', 'render', docs, limit=60 if thorough else 25)
     # a time-out may be a slow document (hundreds of tiny pages, exponential nesting) or a hang: the timed-out
     # documents whose stack does not show a listed non-terminating mechanism get 240 s of CPU time (this runs beside
